@@ -198,6 +198,11 @@ def main(argv=None):
     if not a.no_evidence and not a.replay:
       ev = evidence_for(prop, ctx, errors, a.tier, seed, wall, viol, kn, selftest)
       report.write_evidence(prop, ev)
+    for R_ in ctx.rules:
+      for (k_, rel_, ln_, msg_) in (R_.inconclusive or [])[:12]:
+        print('ANALYSIS-INCONCLUSIVE %s %s [%s:%d] %s' % (R_.id, k_[:110], rel_, ln_, msg_[:220]))
+      for old_, new_ in sorted(getattr(R_, 'relocated', {}).items()):
+        print('NOTE %s: function %s located as %s' % (R_.id, old_, new_))
     if viol:
       for e in errors:
         print('ANALYSIS-ERROR %s' % e)
